@@ -19,7 +19,7 @@ CONSTANT Cmp      \* subset of {"store","em","costs","chan","life","met","cbs","
 
 VARIABLE l
 TraceVal == 1 .. 400
-CmpAll == {"store", "em", "costs", "chan", "life", "met", "cbs", "out", "vttl"}
+CmpAll == {"store", "em", "costs", "chan", "life", "met", "cbs", "out", "vttl", "pop"}
 Rec == ndJsonDeserialize(IOEnv.TRACE)
 tvars == <<vars, l>>
 
@@ -112,7 +112,9 @@ TClient ==
     \/ Is("ClsStopLate") /\ Step(ClsStopLate(C))
     \/ Is("ClsPolLate") /\ Step(ClsPolLate(C))
     \/ Is("ClrSend") /\ Step(ClrSend(C, Ev.op))
-    \/ Is("ClrPolicy") /\ Step(ClrPolicy(C))
+    \/ /\ Is("ClrPolicy") /\ Step(ClrPolicy(C))
+       \* policy.clear() also empties the popularity estimator: a cleared cache is a fresh one
+       /\ ("pop" \in Cmp) => (Ev.post.tinyw = 0 /\ \A j \in 1 .. Len(Ev.post.est) : Ev.post.est[j][2] = 0)
     \/ Is("ClrStore") /\ Step(ClrStore(C))
     \/ Is("ClrMetrics") /\ Step(ClrMetrics(C))
     \/ Is("ClsStopSend") /\ Step(ClsStopSend(C))
